@@ -36,6 +36,31 @@ def run(tool, tier, seed):
     import engine
     kind = tool['kind']
     t0 = time.time()
+    if kind == 'premise':
+        # A syntactic frame condition that the per-operation proofs rest on (e.g. "a Sign object has no mutable state of
+        # its own, so operations cannot communicate through it").  If it no longer holds the proofs that start every
+        # operation from a fresh object do not cover the code any more: that part is UNDECIDED (never an alarm by
+        # itself; a native run that finds a failing sequence still reports the violation).
+        src = open(os.path.join(os.environ.get('VERIF_REPO', '/repo'), tool['file'])).read()
+        src = re.sub(r'(?s)#\[cfg\(test\)\]\s*mod\s+\w+\s*\{.*', '', src)   # unit tests at the end of the file are not library code
+        code = extract.strip_docs_attrs(src)
+        m = re.search(r'pub\s+struct\s+%s\s*\{([^}]*)\}' % re.escape(tool['struct']), code)
+        if not m:
+            raise engine.Undecided('premise %s: struct %s not found in %s' % (tool['name'], tool['struct'], tool['file']))
+        fields = sorted(' '.join(f.split()) for f in m.group(1).split(',') if f.strip())
+        want = sorted(tool['fields'])
+        bad = []
+        if fields != want:
+            bad.append('fields of %s are %s, expected %s' % (tool['struct'], fields, want))
+        for rx in tool['forbid']:
+            mm = re.search(rx, code)
+            if mm:
+                bad.append('%r occurs in %s (line %d)' % (mm.group(0), tool['file'], code.count('\n', 0, mm.start()) + 1))
+        if bad:
+            raise engine.Undecided('premise "%s" of the per-operation proofs no longer holds: %s' % (tool['name'], '; '.join(bad)))
+        o = {'name': 'premise:' + tool['name'], 'engine': 'syntactic frame condition', 'ok': True, 'time_ms': int(1000 * (time.time() - t0)),
+             'detail': [tool['text']], 'bounded': False}
+        return [o], {'kind': 'premise', 'name': tool['name'], 'file': tool['file'], 'checked': {'fields': want, 'forbidden_patterns': tool['forbid']}}
     if kind == 'regexeq':
         try:
             pat, line = extract_frame_regex()
